@@ -159,7 +159,8 @@ theorem c04_replace_tree_stream (cons : Text → Option Text) (inner : Src) (ho 
         ∧ tblS emptyS ((Src.replace inner rs).stream ⟨true, final⟩ σ).1.evs y.src = some (name, some T)
         ∧ q < T.length ∧ adv startPos (T.take q) = ⟨y.line, y.col⟩
         ∧ ((∃ q', q < q' ∧ q' ≤ T.length ∧ t' = some (bsub T q q')
-              ∧ ∀ j, j < q' - q → adv startPos (T.take (q + j)) = ⟨y.line, y.col + j⟩)
+              ∧ (∀ j, j < q' - q → adv startPos (T.take (q + j)) = ⟨y.line, y.col + j⟩)
+              ∧ ∃ tok k0 l0 c0, TokPos T tok l0 c0 k0 ∧ k0 ≤ q ∧ q' ≤ k0 + tok.length)
             ∨ (∃ r ∈ sortRepls rs, ∃ cl ∈ splitLines r.content, t' = some cl)) :=
   replace_origTree_true cons inner ho hw hasc rs final σ
 
@@ -184,7 +185,9 @@ names a file with its exact content `T` and the true line and column of a byte `
 byte `T[q + d]`, whose own true position is `o`'s line and `o`'s column plus `d` — a surviving original character is attributed to
 its own file and its own original line, at a column not after its own, by a segment that starts on an original character —
 or byte `i` belongs to the content of one of the replacements (generated text, attributed to where it was spliced in).
-This is the property's statement for columns = true on this family of trees; chain: C12 (codec) ∘ C03-T3 (text-less = normal
+The segment start and the byte lie in one potential token of `T` that starts at `k0 ≤ q`; a surviving byte that begins a
+potential token — a statement start — therefore has `q = k0`, `d = 0`: it resolves to exactly its own original line and column
+(`c04_statement_start_exact`).  This is the property's statement for columns = true on this family of trees; chain: C12 (codec) ∘ C03-T3 (text-less = normal
 mode) ∘ `attrOf` (bytes of a chunk share its mapping) ∘ `c04_replace_tree_stream` ∘ the table relation `mapAcc_tblRel`. -/
 theorem c04_replace_tree_map_bytes (cons : Text → Option Text) (inner : Src) (ho : inner.OrigTree) (hw : Src.WD cons true inner)
     (hasc : ∀ n T, cons n = some T → IsAscii T ∧ T.length < USIZE_MAX) (rs : List Repl)
@@ -195,7 +198,8 @@ theorem c04_replace_tree_map_bytes (cons : Text → Option Text) (inner : Src) (
       ∃ (name T : Text) (q d : Nat), sm.sources[o.src]? = some name ∧ sm.sourcesContent[o.src]? = some T ∧ q < T.length
         ∧ adv startPos (T.take q) = ⟨o.line, o.col⟩
         ∧ ((q + d < T.length ∧ (replaceSource inner.src rs)[i]? = T[q + d]?
-              ∧ adv startPos (T.take (q + d)) = ⟨o.line, o.col + d⟩)
+              ∧ adv startPos (T.take (q + d)) = ⟨o.line, o.col + d⟩
+              ∧ ∃ tok k0 l0 c0, TokPos T tok l0 c0 k0 ∧ k0 ≤ q ∧ q + d < k0 + tok.length)
             ∨ (∃ r ∈ sortRepls rs, ∃ cl ∈ splitLines r.content, d < cl.length ∧ (replaceSource inner.src rs)[i]? = cl[d]?)) :=
   replace_origTree_map_bytes cons inner ho hw hasc rs hr hlen final hsmall sm hm
 
@@ -251,5 +255,10 @@ theorem c04_lines_map (cons : Text → Option Text) (inner : Src) (ho : inner.Or
     ∧ ∃ (name T ln : Text) (c k : Nat) (m : Mapping), sm.sources[si]? = some name ∧ sm.sourcesContent[si]? = some T
         ∧ Ev.chunk (some ln) m ∈ (inner.stream ⟨false, false⟩ []).1.evs ∧ m.gl = L ∧ TokPos T ln ol c k :=
   origTree_lines_map cons inner ho hw final hsmall sm hm L si ol hL hlook
+
+
+/-- a surviving byte that begins a potential token of its file — a statement start — is the first byte of its segment: exact
+line and column (arithmetic corollary of the token clause of `c04_replace_tree_map_bytes`) -/
+theorem c04_statement_start_exact (q d k0 : Nat) (hk : k0 ≤ q) (hstart : q + d = k0) : d = 0 ∧ q = k0 := by omega
 
 end Rs
